@@ -5,6 +5,7 @@
 package kubernetes_test
 
 import (
+	"time"
 	"bufio"
 	"encoding/json"
 	"fmt"
@@ -73,10 +74,18 @@ func TestVerifC20(t *testing.T) {
 		Back   []int64 `json:"back,omitempty"`   // MemReqToOomAdj(table[a])
 		Lookup []int64 `json:"lookup,omitempty"` // OomAdjToMemReq(a, lim) for probes
 	}
+	hung := false
 	for _, line := range strings.Fields(string(data)) {
 		c, _ := strconv.ParseInt(line, 10, 64)
 		r := rec{Cap: c}
-		func() {
+		if hung {
+			// a table construction that did not return is still spinning on the package's global capacity:
+			// nothing run after it can be believed
+			break
+		}
+		done := make(chan struct{})
+		go func() {
+			defer close(done)
 			defer func() {
 				if e := recover(); e != nil {
 					r.Panic = true
@@ -104,6 +113,14 @@ func TestVerifC20(t *testing.T) {
 				}
 			}
 		}()
+		select {
+		case <-done:
+		case <-time.After(20 * time.Second):
+			// the construction searches at most int(capacity/1000) steps per entry: for a huge capacity a wrong
+			// start point means ~10^16 iterations
+			hung = true
+			r = rec{Cap: c, Panic: true, Msg: "timeout: SetMemoryCapacity / CalculateOomAdjToMemReqEstimates did not return within 20s"}
+		}
 		enc.Encode(&r)
 		w.Flush()
 	}
